@@ -166,7 +166,11 @@ class QuadricTensor(ProjectiveTensor, ABC):
         if n == 3:
             b = adjugate(self.array)
             i = np.argmax(np.abs(np.diagonal(b, axis1=-2, axis2=-1)), axis=-1)
-            beta = csqrt(-b[(*indices, i, i)])
+            b_ii = b[(*indices, i, i)]
+            # the adjugate of a matrix of rank 1 (double line/point) only vanishes up to rounding errors that are relative
+            # to the squared size of the matrix; dividing by their square root would amplify them
+            noise = 1e3 * EQ_TOL_REL * np.max(np.abs(self.array), axis=(-2, -1)) ** 2
+            beta = csqrt(-np.where(np.abs(b_ii) <= noise, 0, b_ii))
             p = -b[(*indices, slice(None), i)] / np.where(beta != 0, beta, -1)[..., None]
             m = hat_matrix(p)
 
